@@ -123,6 +123,17 @@ def body(E, op, n, m, num_pts, npt_so_far, with_h):
             E.prove(is_new, op + ':saved-record-is-whole')
         E.prove(better(E, M.objsave, newobj), op + ':saved-not-worse-than-new-prefers-non-nan')
         check_slots_unchanged(E, M, ghost, op)
+        # the saved record owns its data: later in-place changes of the live model / of the caller's vector do not reach it
+        keep = ([v for v in E.flat(M.rsave)], [v for v in E.flat(M.jacsave)] if M.jacsave is not None else None,
+                [v for v in E.flat(M.jacsave_eval_nums)] if M.jacsave_eval_nums is not None else None, [v for v in E.flat(M.xsave)])
+        r[0] = r[0] + 1
+        x[0] = x[0] + 1
+        M.model_jac[0, 0] = M.model_jac[0, 0] + 1
+        M.model_jac_eval_nums[0] = M.model_jac_eval_nums[0] + 1
+        M.fval_v[:, :] = M.fval_v + 1
+        same_ = lambda a, b: True if a is None else E.all([E.same(p_, q_) for p_, q_ in zip(E.flat(a), b)])
+        E.prove(E.all([same_(M.rsave, keep[0]), same_(M.jacsave, keep[1]), same_(M.jacsave_eval_nums, keep[2]), same_(M.xsave, keep[3])]),
+                op + ':saved-record-is-a-copy-not-an-alias')
     elif op == 'get_final_results':
         x, r, obj, jac, cnt, ev, jev = M.get_final_results()
         k = int(M.kopt)
